@@ -301,6 +301,7 @@ func runC02(e *Engine, r *Report) {
 	ruleBootstrapSorted(e, r)
 	ruleHeartbeatMatchArg(e, r)
 	ruleRestoreFastForward(e, r)
+	ruleLastAppliedContiguous(e, r)
 	// the apply cursor handed out by the raft core never rewinds (decided by C19's rule set)
 	borrow(e, r, "C19", "DEP-processed-ack")
 	borrow(e, r, "C08", "OWN-members-copy", "TBL-ssmeta")
